@@ -58,6 +58,46 @@ theorem endBlock_conserves_within_period (p : Params) (s : St) (cb : Addr) (orde
     total (endBlock p s cb order).1 = total s ∧ Inv (endBlock p s cb order).1 :=
   endBlock_within_period p s cb order hI hn hok
 
+/-- withdrawn stake returns to its recipient exactly once: processWithdrawQueue releases a matured record and marks it
+finished in the same step, never touches a finished one, and only discards finished ones — balances + unfinished records
+are unchanged (record amounts non-negative) -/
+theorem withdraw_paid_once (p : Params) (n : Nat) (q : List WRec) (bal : List (Addr × Int)) (h : ∀ r ∈ q, 0 ≤ r.final) :
+    sumUnfinished (processQueue p n q bal).1 + sumI (processQueue p n q bal).2 = sumUnfinished q + sumI bal :=
+  processQueue_spec p n q bal h
+
+example : (processQueue {} 200 [{ validator := 5, delegator := 0, recipient := 9, final := 70, finished := false, completion := 100 }] []).2 = [(9, 70)] := by decide
+
+/-- a delegation that fails to activate (validator expelled or no longer accepting) is refunded to the delegator (V5) -/
+theorem failed_delegation_refunded (p : Params) (s : St) (t : PTx) (v : Val) (hk : t.kind = 16)
+    (hg : getVal s.vals t.val = some v) (hx : v.expelled = true ∨ v.accept = 0) :
+    takeEffect p s t = (credit s t.sender t.value, .ok) ∧ total (takeEffect p s t).1 = total s + t.value := by
+  have : takeEffect p s t = (credit s t.sender t.value, .ok) := by
+    unfold takeEffect
+    simp [hk, hg, hx]
+  rw [this]; exact ⟨rfl, total_credit _ _ _⟩
+
+/-- a deposit that fails to activate (total stake over MaxStakes) is refunded to the sender (V5) -/
+theorem failed_deposit_refunded (p : Params) (s : St) (t : PTx) (v : Val) (hk : t.kind = 3)
+    (hg : getVal s.vals t.val = some v)
+    (hx : p.maxStake v.role > 0 ∧ u64 (v.stake + ((v.selfToken + t.value) / p.unit - v.selfStake)) > (p.maxStake v.role : Int)) :
+    takeEffect p s t = (credit s t.sender t.value, .ok) ∧ total (takeEffect p s t).1 = total s + t.value := by
+  have : takeEffect p s t = (credit s t.sender t.value, .ok) := by
+    unfold takeEffect
+    simp [hk, hg, hx]
+  rw [this]; exact ⟨rfl, total_credit _ _ _⟩
+
+/-- intended: every take-effect handler moves exactly the detained value out of "pending" (not proved in general; the two
+refund branches above are) -/
+def takeEffect_statement : Prop :=
+  ∀ (p : Params) (s : St) (t : PTx), (t.kind = 1 → (getVal s.vals t.val).isNone) → (takeEffect p s t).2 = .ok →
+    total (takeEffect p s t).1 = total s + (if detains t.kind then t.value else 0)
+
+/-- intended: penalties arrive in the penalty account — doPenalize/takePenalty conserve when handed the stored object
+(not proved; covered by correspondence and the oracle) -/
+def penalty_to_penaltyAccount_statement : Prop :=
+  ∀ (p : Params) (s : St) (v : Val) (amount : Int), getVal s.vals v.addr = some v → 0 ≤ amount →
+    (∀ r ∈ s.queue, 0 ≤ r.final) → (penalize p s v amount).2 = .ok → total (penalize p s v amount).1 = total s
+
 /-! ## chains -/
 
 /-- side conditions of the partial chain theorem, evaluated along the run: no EVM gas refund, and end-block hooks only
